@@ -28,7 +28,7 @@ def wf_point_tier(S, name):
     env = {"lo": lo, "hi": hi}
     ents = S.list(name + ".entries", "Point",
                   all="lo <= e.time and e.time <= hi and strip(e.label) == e.label",
-                  pair="a.time <= b.time", env=env)
+                  pair="a.time < b.time or (a.time == b.time and a.label <= b.label)", env=env)
     S.assume("0 <= lo and lo <= hi and hi <= 1e15", env)
     return S.obj(PT, name=S.str(name + ".name"), _entries=ents, minTimestamp=lo, maxTimestamp=hi,
                  errorReporter=S.I.get_function("praatio.utilities.utils.reportWarning"))
@@ -100,4 +100,86 @@ contract(
                       " and result.maxTimestamp == (cropEnd - cropStart if rebaseToZero else cropEnd)"),
              ("name", "result.name == self.name")],
     frame=["self"],
+)
+
+REPORT_CFG = {"reportingMode": ["silence", "warning", "error", "bogus"]}
+OFFSET = ["-1e15 <= offset", "offset <= 1e15"]
+
+contract(
+    IT + ".editTimestamps",
+    serves=["C09", "C05", "C13"],
+    configs=REPORT_CFG,
+    inputs=lambda S, cfg: dict(self=wf_interval_tier(S, "self"), offset=S.real("offset"),
+                               reportingMode=cfg["reportingMode"]),
+    requires=OFFSET,
+    spec="spec.tiers.IntervalTier_editTimestamps",
+    ensures=wf_interval_clauses("result") + [
+        ("never-shrinks", "result.minTimestamp <= self.minTimestamp and result.maxTimestamp >= self.maxTimestamp"),
+        ("name", "result.name == self.name")],
+    frame=["self"],
+)
+
+contract(
+    PT + ".editTimestamps",
+    serves=["C09", "C05", "C13"],
+    configs=REPORT_CFG,
+    inputs=lambda S, cfg: dict(self=wf_point_tier(S, "self"), offset=S.real("offset"),
+                               reportingMode=cfg["reportingMode"]),
+    requires=OFFSET,
+    spec="spec.tiers.PointTier_editTimestamps",
+    ensures=[("never-shrinks", "result.minTimestamp <= self.minTimestamp and result.maxTimestamp >= self.maxTimestamp"),
+             ("in-span", "forall(result.entries, lambda p: result.minTimestamp <= p.time and p.time <= result.maxTimestamp)"),
+             ("sorted", "is_sorted(result.entries)")],
+    frame=["self"],
+)
+
+contract(
+    IT + ".insertSpace",
+    serves=["C08", "C05", "C12", "C13"],
+    configs={"collisionMode": ["stretch", "split", "no_change", "error", "bogus"]},
+    inputs=lambda S, cfg: dict(self=wf_interval_tier(S, "self"), start=S.real("start"), duration=S.real("duration"),
+                               collisionMode=cfg["collisionMode"]),
+    requires=["0 <= start", "start <= 1e15", "0 < duration", "duration <= 1e15"],
+    spec="spec.tiers.IntervalTier_insertSpace",
+    ensures=wf_interval_clauses("result") + [
+        ("span", "result.minTimestamp == self.minTimestamp and result.maxTimestamp == self.maxTimestamp + duration"),
+        ("name", "result.name == self.name")],
+    frame=["self"],
+)
+
+contract(
+    PT + ".insertSpace",
+    serves=["C08", "C05", "C12", "C13"],
+    configs={"_collisionMode": ["error", "stretch"]},
+    inputs=lambda S, cfg: dict(self=wf_point_tier(S, "self"), start=S.real("start"), duration=S.real("duration"),
+                               _collisionMode=cfg["_collisionMode"]),
+    requires=["0 <= start", "start <= 1e15", "0 < duration", "duration <= 1e15"],
+    spec="spec.tiers.PointTier_insertSpace",
+    ensures=[("span", "result.minTimestamp == self.minTimestamp and result.maxTimestamp == self.maxTimestamp + duration"),
+             ("in-span", "forall(result.entries, lambda p: result.minTimestamp <= p.time and p.time <= result.maxTimestamp)"),
+             ("sorted", "is_sorted(result.entries)")],
+    frame=["self"],
+)
+
+
+TT = "praatio.data_classes.textgrid_tier.TextgridTier"
+
+
+def tier_of(S, name, kind):
+    return wf_interval_tier(S, name) if kind == "interval" else wf_point_tier(S, name)
+
+
+contract(
+    TT + ".appendTier",
+    serves=["C09", "C05", "C13"],
+    configs={"kinds": ["interval+interval", "point+point", "interval+point", "point+interval"]},
+    inputs=lambda S, cfg: dict(self=tier_of(S, "self", cfg["kinds"].split("+")[0]),
+                               tier=tier_of(S, "tier", cfg["kinds"].split("+")[1])),
+    spec="spec.tiers.TextgridTier_appendTier",
+    ensures=[("span", "result.minTimestamp == self.minTimestamp and "
+                      "result.maxTimestamp == self.maxTimestamp + tier.maxTimestamp"),
+             ("name", "result.name == self.name"),
+             ("in-span", "forall(result.entries, lambda e: result.minTimestamp <= e[0] and e[-2] <= result.maxTimestamp)"),
+             ("sorted", "is_sorted(result.entries)")],
+    frame=["self", "tier"],
 )
